@@ -190,6 +190,30 @@ def run_family(ctx, fam: Family, n: int, search_factor: int = 6) -> dict:
     return stats
 
 
+def run_oracle_only(ctx, fam, n):
+    """A family without a Coq model: corpus + n generated cases, oracle on each, shrinking of the first failure."""
+    cases = load_corpus(ctx.pid, fam.name) + [fam.gen(ctx.rng) for _ in range(n)]
+    fails, nontrivial = 0, 0
+    for c in cases:
+        try:
+            o = fam.impl(c)
+        except Exception as e:  # noqa: BLE001
+            ctx.violation("oracle", dict(family=fam.name, case=c, failure=dict(clause="implementation raised", error=f"{type(e).__name__}: {e}"[:300])))
+            fails += 1
+            continue
+        nontrivial += bool(fam.nontrivial(c, o))
+        fs = fam.oracle(c, o)
+        if fs:
+            fails += 1
+            if fails == 1:
+                d = dict(family=fam.name, case=c, obs=o, failure=fs[0])
+                small = shrink_case(fam, c, fs[0]["clause"])
+                if small != c:
+                    d["minimized_case"] = small
+                ctx.violation("oracle", d)
+    return dict(family=fam.name, cases=len(cases), nontrivial=nontrivial, oracle_failures=fails, model="none (oracle only)")
+
+
 def merge_stats(ctx, all_stats: list[dict], rule: str):
     cov = ctx.coverage
     cov["evaluations"] = sum(s["cases"] for s in all_stats)
